@@ -166,79 +166,6 @@ func c14Scenarios() []*c14Scenario {
 	}
 }
 
-func dumpKey(d s2.VerifIndexState) string {
-	var sb strings.Builder
-	fmt.Fprintf(&sb, "st=%d pend=%d map=%d|", d.Status, d.PendingAdditionsPos, d.MapLen)
-	for _, c := range d.Cells {
-		fmt.Fprintf(&sb, "%x:%v[", uint64(c.ID), c.InMap)
-		for _, s := range c.Shapes {
-			fmt.Fprintf(&sb, "%d%v%v;", s.ShapeID, s.ContainsCenter, s.Edges)
-		}
-		sb.WriteString("]")
-	}
-	return sb.String()
-}
-
-// c14Harness is the per-process harness state shared with the access hook.
-type c14Harness struct {
-	reached []bool
-	wrote   []bool
-	writes  int
-}
-
-var c14H *c14Harness
-
-func callerDesc() string {
-	// innermost s2 function, plus the first caller that is not a method of the
-	// index or its iterator (the code that is responsible for the access).
-	pc := make([]uintptr, 16)
-	n := runtime.Callers(4, pc)
-	frames := runtime.CallersFrames(pc[:n])
-	inner, outer := "", ""
-	for {
-		f, more := frames.Next()
-		name := f.Function
-		if !strings.Contains(name, "golang/geo/s2.") {
-			break
-		}
-		name = name[strings.LastIndex(name, "/s2.")+4:]
-		if inner == "" {
-			inner = name
-		}
-		if !strings.HasPrefix(name, "(*ShapeIndex)") && !strings.HasPrefix(name, "(*ShapeIndexIterator)") {
-			outer = name
-			break
-		}
-		if !more {
-			break
-		}
-	}
-	if outer == "" {
-		return inner
-	}
-	return inner + " via " + outer
-}
-
-func installAccessHook() {
-	s2.VerifAccessHook = func(ix *s2.ShapeIndex, loc uint8, write bool) {
-		e := vsched.Active()
-		if e == nil {
-			return
-		}
-		if h := c14H; h != nil {
-			t := e.CurrentThread()
-			if t >= 0 && t < len(h.reached) {
-				h.reached[t] = true
-				if write && loc == 0 {
-					h.wrote[t] = true
-					h.writes++
-				}
-			}
-		}
-		e.Access(ix, int(loc), write, callerDesc())
-	}
-}
-
 // buildSched turns a c14 scenario (restricted to the first nThreads ops) into an E1 scenario.
 func (s *c14Scenario) buildSched(nThreads int) (*sched.Scenario, []string) {
 	ops := s.Ops
@@ -315,20 +242,6 @@ type c14Failure struct {
 	Count   int      `json:"count"`
 	Stable  bool     `json:"stable"`
 	Trace   []string `json:"trace,omitempty"`
-}
-
-var reThread = regexp.MustCompile(`\(T\d+\)|T\d+: `)
-
-func canonDesc(kind, desc string) string {
-	if kind == "panic" {
-		first := desc
-		if i := strings.Index(desc, "\n"); i > 0 {
-			first = desc[:i]
-		}
-		first = reThread.ReplaceAllString(first, "")
-		return first + " at " + core.GeoFrame(desc)
-	}
-	return strings.TrimSpace(reThread.ReplaceAllString(desc, ""))
 }
 
 // c14Worker: vcheck worker c14 <scenario> <threads> <bound> <shard> <shards> <maxexec>
@@ -419,16 +332,6 @@ func c14Worker(args []string) int {
 	b, _ := json.Marshal(out)
 	fmt.Println("C14OUT " + string(b))
 	return 0
-}
-
-func runWorkerProc(args ...string) (string, string, error) {
-	exe, _ := os.Executable()
-	cmd := exec.Command(exe, append([]string{"worker"}, args...)...)
-	var so, se strings.Builder
-	cmd.Stdout = &so
-	cmd.Stderr = &se
-	err := cmd.Run()
-	return so.String(), se.String(), err
 }
 
 func runC14(c *core.Ctx) {
@@ -570,13 +473,6 @@ func opNames(s *c14Scenario, n int) []string {
 		}
 	}
 	return out
-}
-
-func tail(s string, n int) string {
-	if len(s) > n {
-		return s[len(s)-n:]
-	}
-	return s
 }
 
 func c14Replay(c *core.Ctx, scs []*c14Scenario) {
